@@ -259,8 +259,11 @@ fn cols_body<O: flatcontainer::impls::index::IndexContainer<usize>>(v: &[u64]) {
     crate::section("VF:columns.row");
     let rows = [row(0, v[0]), row(1, v[1]), row(2, v[2])];
     let mut r = <ColumnsRegion<MirrorRegion<u8>, O>>::default();
+    // C20: a twin fed the canonical form (`&[T]`) only
+    let mut t = <ColumnsRegion<MirrorRegion<u8>, O>>::default();
     let mut idx = Vec::new();
     for (k, x) in rows.iter().enumerate() {
+        crate::section("VF:columns.row");
         let i = match (v[3] + k as u64) % 7 {
             0 => r.push(x.as_slice()),
             1 => r.push(x.clone()),
@@ -286,6 +289,19 @@ fn cols_body<O: flatcontainer::impls::index::IndexContainer<usize>>(v: &[u64]) {
             }
         };
         idx.push(i);
+        // C20: whatever form the row came in, the region is indistinguishable from the twin
+        crate::section("VF:columns.forms");
+        let dump = |c: &ColumnsRegion<MirrorRegion<u8>, O>, idx: &[usize]| -> Option<Vec<Vec<u8>>> {
+            std::panic::catch_unwind(std::panic::AssertUnwindSafe(|| {
+                idx.iter().map(|i| { let it = c.index(*i); let mut o: Vec<u8> = it.iter().collect(); o.extend((0..it.len()).map(|k| it.get(k))); o }).collect()
+            })).ok()
+        };
+        let it = t.push(x.as_slice());
+        if let Some(reference) = dump(&t, &idx) {
+            vassert!(i == it, "VF:columns.forms.index");
+            vassert!(dump(&r, &idx) == Some(reference), "VF:columns.forms.reads");
+        }
+        crate::section("VF:columns.row");
         // every row issued so far reads exactly its own cells
         for (i, want) in idx.iter().zip(rows.iter()) {
             let got = r.index(*i);
